@@ -27,3 +27,78 @@ contract(FF, "Framer.restartCounter", "C11", params=dict(self=Ref("Framer")),
 contract(FF, "Framer.updateCounter", "C11", params=dict(self=Ref("Framer")),
          modifies=["self.recurred", "self.recurredShr.value"],
          ensures=["self.recurred == old(self.recurred) + 1", "self.recurredShr.value == self.recurred"])
+
+# ---------------------------------------------------------------- the evaluation point: Framer.segue
+# Transition conditions are evaluated inside frame.precur().  Ghost snapshot taken right after the two
+# updates: that is the elapsed / recurred every condition of this tick sees (until a transition restarts them).
+from contracts.lib import *
+
+LF = List(Ref("Frame"))
+ANY_FRAMER = havoc_all_but(FRAMER_RUN_FIELDS, keep=[], wf=[ACTIVES_OWNED])
+contract(FF, "Frame.precur", "C11,C09,C10", params=dict(self=Ref("Frame")), modifies=[ANY_FRAMER], returns=BOOL,
+         verify=False, may_raise_at_call=False,
+         note="call-site view: a pre-act may be a transition or conditional auxiliary, which re-enters the framer "
+              "(exit/enter/activate), so every framer's run fields may change; body verified in C10")
+contract(FF, "Frame.segueAuxes", "C11,C09", params=dict(self=Ref("Frame")), modifies=[OTHER_FRAMERS], verify=False,
+         may_raise_at_call=False, note="call-site view; body verified in C09")
+
+
+def _snap(E):
+    me = E.frame.env["self"]
+    E.ghost["g_elapsed"] = E.rd_field(me, "elapsed")
+    E.ghost["g_recurred"] = E.rd_field(me, "recurred")
+    E.ghost["g_ctlen"] = Sym(E.ct_length(), "int")
+
+
+OWN_A = "forall(lambda j: implies(0 <= j and j < len(old(self.actives)), old(self.actives)[j].framer is self))"
+contract(FF, "Framer.segue", "C11,C09", params=dict(self=Ref("Framer")),
+         assumes=["forall(lambda j: implies(0 <= j and j < len(self.actives), self.actives[j].framer is self))"],
+         modifies=[ANY_FRAMER, "self.elapsedShr.value", "self.recurredShr.value", "self.stamp", "self.elapsed",
+                   "self.recurred"],
+         ghost={"after": {"self.updateCounter()": _snap}},
+         loops={0: dict(inv=["ct_len() == 2 + _i", "ct_is(0, 'Framer.updateTimer', self)",
+                             "ct_is(1, 'Framer.updateCounter', self)",
+                             "forall(lambda j: implies(0 <= j and j < _i, "
+                             "ct_is(2 + j, 'Frame.segueAuxes', old(self.actives)[j])))",
+                             "forall(lambda k: implies(2 <= k and k < 2 + _i, ct_code(k) == code('Frame.segueAuxes')))",
+                             "self.actives is old(self.actives)", OWN_A,
+                             "seq_eq(old(self.actives), oldlist(self.actives))"]),
+                1: dict(inv=["ct_len() == 2 + len(old(self.actives)) + _i", "ct_is(0, 'Framer.updateTimer', self)",
+                             "ct_is(1, 'Framer.updateCounter', self)",
+                             "forall(lambda j: implies(0 <= j and j < len(old(self.actives)), "
+                             "ct_is(2 + j, 'Frame.segueAuxes', old(self.actives)[j])))",
+                             "forall(lambda k: implies(2 <= k and k < 2 + len(old(self.actives)), "
+                             "ct_code(k) == code('Frame.segueAuxes')))",
+                             "forall(lambda j: implies(2 + len(old(self.actives)) <= j and j < ct_len(), "
+                             "ct_code(j) == code('Frame.precur')))",
+                             "seq_eq(old(self.actives), oldlist(self.actives))"])},
+         ensures=[],
+         local_ensures=[
+             # both clocks are brought up to date before any condition is evaluated
+             "g_ctlen == 2 and ct_is(0, 'Framer.updateTimer', self) and ct_is(1, 'Framer.updateCounter', self)",
+             "forall(lambda k: implies(0 <= k and k < ct_len() and ct_code(k) == code('Frame.precur'), k >= 2))",
+             # what the conditions see: store time since the outline last changed, completed iterations
+             "implies(self.store.stamp is not None and old(self.stamp) is not None, "
+             "g_elapsed == self.store.stamp - old(self.stamp))",
+             "g_recurred == old(self.recurred) + 1",
+             # all auxiliaries segue (top-down) before any frame's own pre-acts (C09)
+             "forall(lambda k: implies(0 <= k and k < ct_len() and ct_code(k) == code('Frame.precur'), "
+             "k >= 2 + len(old(self.actives))))",
+             "forall(lambda j: implies(0 <= j and j < ct_len() and ct_code(j) == code('Frame.segueAuxes'), "
+             "j < 2 + len(old(self.actives))))",
+             # one segueAuxes per active frame, in outline order
+             "forall(lambda j: implies(0 <= j and j < len(old(self.actives)), "
+             "ct_is(2 + j, 'Frame.segueAuxes', oldlist(self.actives)[j])))",
+         ],
+         returns=Opt(BOOL))
+
+contract(FF, "Framer.recur", "C09", params=dict(self=Ref("Framer")),
+         assumes=["forall(lambda j: implies(0 <= j and j < len(self.actives), self.actives[j].framer is self))"],
+         modifies=[havoc_all_but(FRAMER_RUN_FIELDS, keep=["self"], wf=[ACTIVES_OWNED])],
+         loops={0: dict(inv=["ct_len() == _i",
+                             "forall(lambda j: implies(0 <= j and j < _i, ct_is(j, 'Frame.recur', self.actives[j])))",
+                             "self.actives is old(self.actives)", "seq_eq(self.actives, oldlist(self.actives))",
+                             "forall(lambda j: implies(0 <= j and j < len(self.actives), self.actives[j].framer is self))"])},
+         local_ensures=["ct_len() == len(self.actives)",
+                        "forall(lambda j: implies(0 <= j and j < len(self.actives), "
+                        "ct_is(j, 'Frame.recur', self.actives[j])))"])
